@@ -47,16 +47,16 @@ func run(c *props.Ctx) {
 	plycommon.HDR2(e, ft)
 	plycommon.CLAIM1(e)
 
-	c.R.Floor("IDX-1", 4)
+	c.R.Floor("IDX-1", 3)
 	c.R.Floor("LAY-7", 6)
-	c.R.Floor("LAY-3", 18)
+	c.R.Floor("LAY-3", 24)
 	c.R.Floor("LAY-1", 30)
-	c.R.Floor("LAY-2", 40)
+	c.R.Floor("LAY-2", 46)
 	c.R.Floor("HDR-1", 8)
 	c.R.Floor("HDR-2", 8)
 	c.R.Floor("LAY-5", 5)
-	c.R.Floor("AXIS-3", 40)
-	c.R.Floor("AXIS-1", 12)
+	c.R.Floor("AXIS-3", 50)
+	c.R.Floor("AXIS-1", 15)
 	c.R.Floor("REC-1", 12)
-	c.R.Floor("CLAIM-1", 4)
+	c.R.Floor("CLAIM-1", 3)
 }
